@@ -179,13 +179,23 @@ pub fn run_config(cfg: &Config, seed: u64, steps: usize, trace: &mut String, obs
         socks.push(s);
         let _ = writeln!(trace, "CONN {}", c);
     }
-    let mut served = 0;
-    for (c, s) in socks.iter_mut().enumerate() {
-        let (r, _) = exchange(s, &[], 0xee00_0000 + c as u32, Duration::from_millis(700));
-        if !r.is_empty() {
-            served += 1;
+    // a served connection answers at once; on a loaded machine it gets up to 6 s (the ones
+    // beyond the limit never answer: only a run that is about to fail waits that long)
+    let mut answered = vec![false; socks.len()];
+    let t_probe = Instant::now();
+    loop {
+        for (c, s) in socks.iter_mut().enumerate() {
+            if !answered[c] {
+                let (r, _) = exchange(s, &[], 0xee00_0000 + c as u32, Duration::from_millis(700));
+                answered[c] = !r.is_empty();
+            }
+        }
+        let n_served = answered.iter().filter(|a| **a).count();
+        if n_served >= cfg.conn_limit as usize || t_probe.elapsed() > Duration::from_secs(6) {
+            break;
         }
     }
+    let served = answered.iter().filter(|a| **a).count();
     // which of them are served depends on how the kernel spreads them over the
     // listeners; the property is about how many
     let _ = writeln!(trace, "COUNT");
@@ -246,7 +256,7 @@ pub fn run_config(cfg: &Config, seed: u64, steps: usize, trace: &mut String, obs
     // 3. expiry follows real seconds (tick-granular clock: ttl 3 lives 2..3 wall seconds)
     let mut s = TcpStream::connect(addr).unwrap();
     s.set_nodelay(true).unwrap();
-    let set = crate::gen::set_like(op::SET, b"ttlprobe", b"v", 0, 3).bytes();
+    let set = crate::gen::set_like(op::SET, b"ttlprobe", b"v", 0, 5).bytes();
     let t0 = Instant::now();
     let _ = exchange(&mut s, &set, 0xdd00_0001, Duration::from_secs(5));
     let get = Req::new(op::GET).key(b"ttlprobe").opaque(7).bytes();
@@ -259,29 +269,31 @@ pub fn run_config(cfg: &Config, seed: u64, steps: usize, trace: &mut String, obs
         }
         std::thread::sleep(Duration::from_millis(300));
     }
-    // the whole server is then suspended for 4.2 s (a stopped process, a paused VM): expiry
+    // the whole server is then suspended for 7 s (a stopped process, a paused VM): expiry
     // follows real elapsed seconds all the same — the clock catches up when it resumes, so
-    // 5.3 s after the store an item with TTL 3 is gone (a clock that drops the ticks it
-    // missed would still show it)
+    // an item with TTL 5 is gone as soon as the server runs again (a clock that drops the
+    // ticks it missed would show it for three more seconds). The first miss within 1.5 s of
+    // the resumption counts; polling gives a loaded machine time to catch up.
     while t0.elapsed() < Duration::from_millis(800) {
         std::thread::sleep(Duration::from_millis(10));
     }
     unsafe {
         libc::kill(child.id() as i32, libc::SIGSTOP);
     }
-    while t0.elapsed() < Duration::from_millis(5000) {
+    while t0.elapsed() < Duration::from_millis(7800) {
         std::thread::sleep(Duration::from_millis(50));
     }
     unsafe {
         libc::kill(child.id() as i32, libc::SIGCONT);
     }
-    while t0.elapsed() < Duration::from_millis(5300) {
-        std::thread::sleep(Duration::from_millis(20));
+    let mut late_miss = false;
+    while !late_miss && t0.elapsed() < Duration::from_millis(9300) {
+        std::thread::sleep(Duration::from_millis(150));
+        let (r, _) = exchange(&mut s, &get, 0xdd00_0003, Duration::from_secs(5));
+        late_miss = r.first().map(|x| parse_resp(x).map(|(f, _)| f.status == 1).unwrap_or(false)).unwrap_or(false);
     }
-    let (r, _) = exchange(&mut s, &get, 0xdd00_0003, Duration::from_secs(5));
-    let late_miss = r.first().map(|x| parse_resp(x).map(|(f, _)| f.status == 1).unwrap_or(false)).unwrap_or(false);
     let _ = writeln!(trace, "TTLPROBE");
-    let _ = writeln!(obs, "TTL live-before-0.8s={} gone-after-5.3s-despite-a-4.2s-stall={}", early_hit as u8, late_miss as u8);
+    let _ = writeln!(obs, "TTL live-before-0.8s={} gone-once-resumed-after-a-7s-stall={}", early_hit as u8, late_miss as u8);
     let _ = child.kill();
     let _ = child.wait();
     true
